@@ -160,6 +160,7 @@ class Env:
             self.sched.abandon()
         finally:
             _l2_env[0] = None
+            vos.deliver_signal = vproc.deliver_signal
             vproc.launcher = None
             vctx.reset_billiard_globals()
             vos.clear()
